@@ -796,6 +796,73 @@ func Run(r *ev.Run) {
 		}
 	}
 
+	// ---- B10 classes other than IN: address records of class CH, NONE, ANY and the mDNS cache-flush class (0x8001) carry
+	// addresses like any others; questions of class 0, CH, NONE, ANY, 0x8001 keep their class through encode and decode ----
+	for _, class := range []uint16{0, 1, 3, 254, 255, 0x8001} {
+		if class != 0 {
+			m := &dnsref.Msg{ID: 5, Flags: 0x8180, Q: []dnsref.Question{{Name: "cls.example", Type: 255, Class: class}}}
+			m.Sec[0] = []dnsref.RR{{Name: "cls.example", Type: 1, Class: class, TTL: 60, Fields: []dnsref.Field{{Raw: ip4a}}}, {Name: "cls.example", Type: 28, Class: class, TTL: 60, Fields: []dnsref.Field{{Raw: ip6a}}}}
+			checkRefMessage(r, m, "address-record-class")
+		}
+		checkPkgMessage(r, dns.Message{ID: 6, RD: 1, Question: []dns.Question{{Name: "cls.example", Type: 1, Class: class}}}, "question-class", class != 0)
+		pm := dns.Message{ID: 7, QR: 1, Question: []dns.Question{{Name: "cls.example", Type: 28, Class: class}}, Answer: []dns.RR{{Name: "cls.example", Type: 28, Class: max(class, 1), TTL: 9, Data: ip6a}}}
+		checkPkgMessage(r, pm, "question-class", class != 0)
+	}
+
+	// ---- B11 the SAME service-parameter octets in an SVCB (type 64) and in an HTTPS (type 65) record: the two decoders of this
+	// package agree on whether the RDATA is well-formed, and what the HTTPS decoder extracts (port, alpn) is what the generic
+	// parameters say - for keys in any order, unknown keys in front of known ones, and malformed parameters BEHIND an unknown key ----
+	{
+		par := func(key uint16, val ...byte) []byte {
+			return append([]byte{byte(key >> 8), byte(key), byte(len(val) >> 8), byte(len(val))}, val...)
+		}
+		alpn, port, unk, hi := par(1, 2, 'h', '2'), par(3, 0x20, 0xfb), par(7, 'x', 'y'), par(65280, 1)
+		var blobs [][]byte
+		enum.Sequences(4, 3, func(seq []int) {
+			var b []byte
+			for _, i := range seq {
+				b = append(b, [][]byte{alpn, port, unk, hi}[i]...)
+			}
+			blobs = append(blobs, b)
+			for _, bad := range [][]byte{{0, 9}, {0, 9, 0}, {0, 9, 0, 5, 1}, {0xff}} { // cut key + length, cut length, length beyond the data, a stray octet (framing faults; what a VALUE must look like only the HTTPS decoder knows)
+				blobs = append(blobs, append(slices.Clone(b), bad...))
+			}
+		})
+		for _, blob := range blobs {
+			mk := func(typ uint16) []byte {
+				rd := append([]byte{0, 1, 0}, blob...)
+				w := []byte{0, 9, 0x81, 0x80, 0, 1, 0, 1, 0, 0, 0, 0, 1, 's', 7, 'e', 'x', 'a', 'm', 'p', 'l', 'e', 0, byte(typ >> 8), byte(typ), 0, 1}
+				w = append(w, 0xc0, 12, byte(typ>>8), byte(typ), 0, 1, 0, 0, 0, 60, byte(len(rd)>>8), byte(len(rd)))
+				return append(w, rd...)
+			}
+			s64, e64 := dns.DecodeMessage(mk(64))
+			h65, e65 := dns.DecodeMessage(mk(65))
+			oc := "svcb and https agree"
+			switch {
+			case (e64 == nil) != (e65 == nil):
+				oc = "svcb and https disagree"
+				r.Violation("decode-https-vs-svcb", fmt.Sprintf("the service parameters %x: as an SVCB record %v, as an HTTPS record %v", blob, e64, e65), fmt.Sprintf("%x", blob))
+			case e64 == nil:
+				sv, h := s64.Answer[0].Data.(dns.SVCB), h65.Answer[0].Data.(dns.HTTPS)
+				var wantPort uint16
+				var wantALPN []string
+				for _, p := range sv.Params {
+					switch {
+					case p.Key == 3 && len(p.Value) == 2:
+						wantPort = uint16(p.Value[0])<<8 | uint16(p.Value[1])
+					case p.Key == 1:
+						wantALPN = append(wantALPN, string(p.Value[1:]))
+					}
+				}
+				if h.Port != wantPort || !slices.Equal(h.ALPN, wantALPN) {
+					oc = "https drops parameters"
+					r.Violation("decode-https-vs-svcb", fmt.Sprintf("the service parameters %x: the SVCB decoder sees port %d alpn %q, the HTTPS decoder port %d alpn %q", blob, wantPort, wantALPN, h.Port, h.ALPN), fmt.Sprintf("%x", blob))
+				}
+			}
+			r.Eval("https-vs-svcb:"+string(blob), oc)
+		}
+	}
+
 	// ---- B3 the smallest records there are: a root (or no) question plus option-less OPT records (11 octets each) and nothing else ----
 	for _, q := range [][]dns.Question{nil, {{Name: "", Type: 2, Class: 1}}, {{Name: ".", Type: 2, Class: 1}}} {
 		for nopt := 1; nopt <= 3; nopt++ {
